@@ -360,13 +360,15 @@ pub(crate) trait CKKSSubDefault<BE: Backend> {
             cst_znx.effective_k(),
         )?;
         let n = dst.n().as_usize();
+        // digits below the stored precision of `dst` (constant encoded finer than the ciphertext) are dropped
+        let limbs = dst.size();
         if let Some(coeff) = cst_znx.re() {
-            for (limb, digit) in coeff.iter().enumerate() {
+            for (limb, digit) in coeff.iter().enumerate().take(limbs) {
                 dst.data_mut().at_mut(0, limb)[0] -= *digit;
             }
         }
         if let Some(coeff) = cst_znx.im() {
-            for (limb, digit) in coeff.iter().enumerate() {
+            for (limb, digit) in coeff.iter().enumerate().take(limbs) {
                 dst.data_mut().at_mut(0, limb)[n / 2] -= *digit;
             }
         }
